@@ -164,6 +164,18 @@ Section AbfResume.
       symmetry. apply ft_unmeasured; auto. unfold L, abf_load. prj. apply vget_vzero.
   Qed.
 
+  (* with same-step total forces the engine has the total force of the re-executed step: it is reported again *)
+  Lemma reexec_total_force_same_step c s i : abf_ok c -> abf_inv c s -> c_same_step c = true ->
+    let so := abf_step O c s (no_boundary i) in
+    let so' := abf_step O c (abf_load O c (s_cnt (fst so), s_sum (fst so))) (no_boundary i) in
+    o_tf (snd so) = o_tf (snd so').
+  Proof.
+    intros Hc (I1 & I2 & I3) Hs. cbn zeta. unfold abf_step. prj.
+    unfold st_ft. rewrite Hs. unfold st_ft0. apply vbuild_ext. intros k Hk. rewrite Hs.
+    destruct (c_update c || bget (c_subtract c) k) eqn:E; [reflexivity|].
+    unfold abf_load. prj. rewrite vget_vzero. apply I2. exact E.
+  Qed.
+
   Theorem abf_resumable :
     resumable (abf_machine O) abf_ok abf_inv abf_eqv abf_out_eq0 abf_out_eq eq.
   Proof.
